@@ -13,6 +13,13 @@ func ToQuery(pbq *proto.Query) *updog.Query {
 }
 
 func toExpr(pbe *proto.Query_Expression) updog.Expression {
+	// A message decoded from the wire may lack the expression, the operand of a NOT,
+	// or the oneof value. Such nodes convert to a nil Expression, which
+	// Index.Execute rejects with an error.
+	if pbe == nil {
+		return nil
+	}
+
 	switch v := pbe.Value.(type) {
 	case *proto.Query_Expression_Eq:
 		return &updog.ExprEqual{
